@@ -536,7 +536,9 @@ func (root *Root) SDL(full bool, desc ...bool) string {
 func (root *Root) validate() error {
 	var errs []error
 
-	root.coerced = nil
+	// Not nil while a load is validated, that is what tells validateDirUse
+	// to collect and not to set.
+	root.coerced = []func(){}
 	defer func() { root.coerced = nil }()
 
 	for _, t := range root.types.list {
@@ -651,6 +653,13 @@ func (root *Root) validateDirUse(where string, loc Location, du *DirectiveUse) (
 					// what is needed, once the load is known to be valid. (No
 					// comparison first, lists and objects are not comparable.)
 					av := av
+					if root.coerced == nil {
+						// Not a load but a request being validated. The
+						// directive use is the request's own and requests
+						// run side by side, the root is only read.
+						av.Value = v
+						continue
+					}
 					root.coerced = append(root.coerced, func() { av.Value = v })
 				}
 			}
